@@ -284,7 +284,7 @@ def hashseed_part(ctx, n, seeds):
 def run_shard(ctx):
     stats = {k: 0 for k in ("plans", "numeric_stops", "stops_coinciding", "until_event_calls",
                             "until_event_late_waiter", "step_calls", "refused_until", "inprocess_reruns", "skipped_many_escapes")}
-    for i in range(ncases(ctx.tier)):
+    for i in ctx.cases(ncases(ctx.tier)):
         rng = ctx.rng(i)
         prog = kern.gen_program(rng, PROFILE)
         pre = kern.run_on(speckernel.K, prog)
